@@ -5,8 +5,10 @@ pilot/pkg/model/typed_xds_cache.go (lruCache on simplelru) and xds_cache.go (Xds
 Tie: T-diff stream `cache` - random op sequences on the REAL cache through model.XdsCache, observed
 through the verif hook pilot/pkg/model/zz_verif_c06.go, compared line by line with the Lean model;
 stream `keys` - key completeness of the real key functions, validated (not proved);
-stream `writers` - coherence of the real cache writers (processRequest, pushConnection, debug config dump) on
-sequential schedules, validated (not proved).
+stream `writers` - coherence of the real cache writers (initConnection, processRequest, processDeltaRequest incl.
+forceEDSPush, pushConnection[Delta], both debug config dumps) and of the real invalidation paths (config handlers ->
+ConfigUpdate -> debounce -> Push -> dropCacheForRequest, EDSUpdate / EDSCacheUpdate / SvcUpdate / RemoveShard /
+PruneShard, ConfigUpdate(kind Address) => ClearAll) on sequential schedules, validated (not proved).
 On break: harness `oracle` evaluates the property itself on the real cache (ground truth versioned by the
 harness) and enumerates all interleavings of 2 writers x 1 invalidator (x flusher).
 """
@@ -14,6 +16,7 @@ import hashlib
 import os
 import re
 import shutil
+import time
 import types
 
 import verif
@@ -85,7 +88,7 @@ def oracle(ctx, stream, case_lines, rep):
     if stream == "cache":
         il = os.path.join(ctx.work, "interleave.gen.ops")
         if not os.path.exists(il):
-            ctx.harness("gen", "interleave", ctx.seed, ctx.n(8, 40), il)
+            ctx.harness("gen", "interleave", ctx.seed, ctx.n(10, 40), il)
         if os.path.exists(il):
             cands.append(("interleave", il))
     first = None
@@ -179,9 +182,25 @@ def build_harness(ctx):
         if os.path.exists(f):
             os.remove(f)
     cmd = ["go", "build", "-tags", "verif c06ext"] + extra + ["-o", out, "./" + pkg]
-    rc, log, dt = verif.sh(cmd, cwd=verif.HARNESS, env=verif.go_env(), timeout=1500)
-    if rc != 0 and ".cache/go-build" in log and "no such file or directory" in log:
-        rc, log, dt = verif.sh(cmd, cwd=verif.HARNESS, env=verif.go_env(), timeout=1500)  # build cache trimmed meanwhile
+
+    def cache_trouble(log):
+        # the shared Go build cache is trimmed / cleaned by concurrent checks: compiled packages vanish under the build
+        return ".cache/go-build" in log and "no such file or directory" in log
+
+    env = verif.go_env()
+    rc, log, dt = verif.sh(cmd, cwd=verif.HARNESS, env=env, timeout=1500)
+    for attempt in range(2):
+        if rc == 0 or not cache_trouble(log):
+            break
+        time.sleep(5 * (attempt + 1))
+        rc, log, dt = verif.sh(cmd, cwd=verif.HARNESS, env=env, timeout=1500)
+    if rc != 0 and cache_trouble(log):
+        # last resort: a build cache of this check's own (cold the first time, reused afterwards)
+        env = dict(env)
+        env["GOCACHE"] = os.path.join(os.path.dirname(ctx.work.rstrip("/")), "C06.gocache")
+        os.makedirs(env["GOCACHE"], exist_ok=True)
+        ctx.log("shared Go build cache is being trimmed by another process; building with GOCACHE=%s" % env["GOCACHE"])
+        rc, log, dt = verif.sh(cmd, cwd=verif.HARNESS, env=env, timeout=2400)
     ctx.log("go build -tags 'verif c06ext' ./c06 rc=%d (%.1fs)" % (rc, dt))
     if rc == 0:
         if stamp:
@@ -193,9 +212,9 @@ def build_harness(ctx):
     if not ctx.go_build():
         return False
     ctx.tie_broken("harness-build:c06-ext-hooks",
-                   "the newer verif hooks (VerifC06NewDeltaConnection, VerifC06ProcessDeltaRequest, VerifC06PushConnectionDelta, "
-                   "VerifC06ConfigDumpTypes in pilot/pkg/xds/zz_verif_c06.go) do not build against this tree; delta and typed "
-                   "config-dump writers were not exercised:\n" + log)
+                   "the newer verif hooks (VerifC06InitConnection, VerifC06NewDeltaConnection, VerifC06ProcessDeltaRequest, "
+                   "VerifC06PushConnectionDelta, VerifC06ConfigDumpTypes in pilot/pkg/xds/zz_verif_c06.go) do not build against this tree; "
+                   "the real initConnection, delta and typed config-dump writers were not exercised:\n" + log)
     return True
 
 
@@ -227,46 +246,92 @@ def race(ctx, secs):
         ctx.count("race.endpoint_index_ops", int(me.group(1)))
         ctx.count("race.concurrent_eds_generations", int(me.group(2)))
     ctx.note_case("race f8 %d %d" % (calls // 100000, clears // 1000), True)
-    if inc or stored or served:
+    if inc or stored:
         ctx.violation("race:f8-incoherent-writer",
                       "a real cache writer paired an already replaced push context with a later start time under concurrency "
                       "(%d requests, %d stale entries stored, %d stale CDS answers served)" % (inc, stored, served),
                       {"stream": "race", "ops": ["race f8 %d 8" % secs], "output": out[-3000:]}, True)
+    elif served:
+        # no incoherent (context, Start) pair was seen, yet stale answers came out of the cache: a different defect
+        # (an invalidation that does not happen, a key that misses a version) - not F8
+        ctx.violation("race:stale-served-by-coherent-writers",
+                      "%d CDS answers served from the cache were derived from an older DestinationRule than the request's own "
+                      "context holds, although every request paired its context with a coherent start time" % served,
+                      {"stream": "race", "ops": ["race f8 %d 8" % secs], "output": out[-3000:]}, True)
+
+
+def assert_probe(ctx):
+    """lruCache.assertUnchanged (debug facility, UNSAFE_PILOT_ENABLE_RUNTIME_ASSERTIONS only, not modelled) panics in its own
+    goroutine: observed from outside the process. Equal replacement: the process lives; changed replacement: it dies."""
+    rc1, out1 = ctx.harness("probe", "assert", "same", "-", "-", timeout=120)
+    rc2, out2 = ctx.harness("probe", "assert", "changed", "-", "-", timeout=120)
+    same_ok = rc1 == 0 and "alive v1" in out1
+    changed_ok = rc2 != 0 and "assertion failed" in out2
+    ctx.count("assertprobe.equal_replacement_survives", 1 if same_ok else 0)
+    ctx.count("assertprobe.changed_replacement_panics", 1 if changed_ok else 0)
+    if not (same_ok and changed_ok):
+        ctx.tie_broken("assert-probe", "lruCache.assertUnchanged does not behave as documented (equal replacement: rc=%d, "
+                       "changed replacement: rc=%d)\n%s\n%s" % (rc1, rc2, out1[-800:], out2[-800:]))
 
 
 def run(ctx):
     ctx.run_pair = types.MethodType(_run_pair, ctx)
-    ctx.rule = ("cache: cases = random op sequences (5-300 ops: add/get/clear/clearall/flush/maxsize + malformed) on one XdsCacheImpl, "
-                "LRU size 1-5 (sometimes unbounded), 2-7 keys, 4 typed caches + unknown types, Start tokens equal/newer/older than the "
-                "last Clear, zero Start and nil request, dependencies over 9 configs incl. PeerAuthentication; "
-                "keys: one case = one mesh variant x base proxy x 21 single-attribute proxy pairs; writers: one case = 6-30 "
-                "request/push/dump/change/check ops on 1-3 connections of a FakeDiscoveryServer; distinct = hash of (ops, implementation outputs); "
-                "non-trivial = at least one op")
+    ctx.rule = ("cache: cases = random op sequences (5-300 ops: add/get/clear/clearall/flush/maxsize/snapshot/keys + malformed) on one "
+                "XdsCacheImpl, LRU size 1-5 (sometimes unbounded), 2-7 keys, 4 typed caches + unknown types, Start tokens equal/newer/older "
+                "than the last Clear, zero Start and nil request, dependencies over 9 configs incl. PeerAuthentication; "
+                "keys: one case = one mesh variant (20 bits) x one of 16 base proxies x (44 single-attribute pairs + 5 multi-attribute "
+                "pairs + 11 sequences of 3-7 proxies served from one cache); writers: one case = 6-60 connect/request/push/pushstale/dump/"
+                "dumptypes/change/toggle/ep*/addrupdate/meshchange/check ops on 1-3 SotW or delta connections of a FakeDiscoveryServer wired as "
+                "bootstrap wires it; interleave: one case = ALL interleavings of 2 writers x 1 invalidator (Clear or ClearAll) [x flusher] "
+                "of one scenario; distinct = hash of (ops, implementation outputs); non-trivial = at least one op")
     ctx.assumptions = [
         "writers are coherent (theorem never_stale): a writer's Start token is older than every already executed invalidation of a "
-        "dependency that its data does not reflect (StartPush stamps Start after the snapshot is published; processRequest and the "
-        "debug config dump reuse the (LastPushContext, LastPushTime) pair; ProxyUpdate/AdsPushAll read the pair under "
-        "pushContextMu) - validated on the real code by stream writers (sequential) and the race stress (statistical), not proved",
-        "KeyDetermines + in-sync invalidation (hypothesis of cache_invisible): if the snapshot an entry was generated from and a "
-        "reader's snapshot agree on the entry's DependentConfigs() and the two keys (each computed on its own snapshot) are equal, "
-        "generation for the reader yields the stored value - i.e. the key distinguishes proxies (key completeness, Cacheable()) AND "
-        "carries a version/the names of every config generation reads beyond DependentConfigs() (peerAuthVersion, applicable "
-        "DR/VS/EF names: such entries stay stored but unreachable; stored entries are NOT claimed fresh); and every accepted change "
-        "of a declared dependency reaches Clear/ClearAll (dropCacheForRequest incl. Forced => ClearAll, EndpointIndex."
-        "clearCacheForService / deleteServiceInner / GetOrCreateEndpointShard / DeleteShard, PeerAuthentication => EDS ClearAll). "
-        "Validated, not proved, by streams keys and writers on the real generators",
+        "dependency - and every already executed ClearAll - that its data does not reflect (StartPush stamps Start after the snapshot is "
+        "published; processRequest, processDeltaRequest, forceEDSPush and both debug config dumps reuse the (LastPushContext, LastPushTime) "
+        "pair; ProxyUpdate/AdsPushAll read the pair under pushContextMu) - validated on the real code by stream writers (sequential) and the "
+        "race stress (statistical), not proved",
+        "KeyDetermines (hypothesis of cache_invisible): if the snapshot an entry was generated from and a reader's snapshot agree on the "
+        "GLOBAL inputs G and on the entry's DependentConfigs(), and the two keys (each computed on its own snapshot) are equal, generation "
+        "for the reader yields the stored value - i.e. the key distinguishes proxies (key completeness, Cacheable()) AND carries a "
+        "version/the names of every config generation reads beyond DependentConfigs() and G (peerAuthVersion, applicable DR/VS/EF names: "
+        "such entries stay stored but unreachable; stored entries are NOT claimed fresh; for CDS the PeerAuthentication version of the proxy's "
+        "filtered view in the key is the ONLY protection against PeerAuthentication changes, for EDS it is redundant with the modelled rule "
+        "PeerAuthentication => EDS ClearAll: dropping it from the EDS key alone is not observable, dropping both is). Validated, not proved, by stream keys "
+        "(44 proxy attributes on the real CDS/EDS/RDS/SDS generators) and stream writers",
+        "in-sync invalidation (part of Coherent): every accepted change of a declared dependency reaches Clear with its key, and the inputs "
+        "in G (MeshConfig, mesh networks, the ambient Address index, removal of a whole endpoint shard) change at ClearAll only "
+        "(dropCacheForRequest incl. Forced => ClearAll, EndpointIndex.clearCacheForService / deleteServiceInner / GetOrCreateEndpointShard / "
+        "DeleteShard, PeerAuthentication => EDS ClearAll, ConfigUpdate(kind Address) => ClearAll). Validated by stream writers on: config "
+        "handlers of DR/VS/SE/Sidecar/EnvoyFilter/PeerAuthentication (change, delete, create), Secret/ConfigMap events, EDSUpdate, "
+        "EDSCacheUpdate, SvcUpdate(delete), RemoveShard, PruneShard, mesh config + Forced push, ConfigUpdate(Address) with a harness-"
+        "provided ambient index. NOT reached by any stream (assumed): the real ambient index's own event -> ConfigUpdate(Address) path, "
+        "mesh networks changes, waypoint/ztunnel/gateway-API generators, delegate VirtualServices and service aliases in the RDS "
+        "dependency list, WasmPlugin/Telemetry/AuthorizationPolicy (not cached types), the Kubernetes gateway-secret path of SDS",
         "Secrets and ConfigMaps are read live by SecretGen while the SDS cache is cleared only by the debounced push of the "
         "credentials controller's ConfigUpdate: inside that debounce window the cache serves the old certificate although a fresh "
         "generation yields the new one (the harness waits the window out before it checks)",
         "formalisation: the declared dependencies may depend on the snapshot (depsOf r S); readers that key on an older snapshot "
         "than the current one are not covered by cache_invisible",
-        "the wall clock is strictly increasing between a writer's Start and any later Clear (Add rejects only token < cache token)",
+        "the wall clock is strictly increasing between a writer's Start and any later Clear (Add rejects only token < cache token); a Clear "
+        "whose wall-clock token EQUALS the Start of an earlier Add is covered by the model and the theorems but cannot be produced on the "
+        "real cache (Clear reads time.Now() itself), so it is not in the differential tie",
         "ConfigKey.HashCode is injective on the configs in play; UnixNano of Start is non-negative",
-        "KeyComplete (the cache key determines every input generation reads) is validated on the real key functions by the "
-        "stream `keys`, not proved",
+        "lruCache.assertUnchanged (UNSAFE_PILOT_ENABLE_RUNTIME_ASSERTIONS, off in production) is not modelled; a probe observes it from "
+        "outside the process on every run",
     ]
-    ctx.trusted.append("pilot/pkg/model/zz_verif_c06.go (verif-tagged read-only snapshot of the typed caches + synchronous Flush)")
-    ctx.trusted.append("pilot/pkg/xds/zz_verif_c06.go (verif-tagged entry points: processRequest, pushConnection, connectionConfigDump, bare Connection)")
+    ctx.trusted.append("pilot/pkg/model/zz_verif_c06.go (verif-tagged read-only snapshot of the typed caches: store with tokens and "
+                       "dependencies, reverse index, evict queue, cache token)")
+    ctx.trusted.append("pilot/pkg/xds/zz_verif_c06.go (verif-tagged entry points to unexported code, no behaviour change: VerifC06InitConnection "
+                       "(real initConnection, then unregisters the connection so that the harness decides when a queued push is delivered), "
+                       "VerifC06ProcessRequest, VerifC06ProcessDeltaRequest, VerifC06PushConnection, VerifC06PushConnectionDelta, "
+                       "VerifC06ConfigDump, VerifC06ConfigDumpTypes, VerifC06NewConnection / VerifC06NewDeltaConnection (bare connections, "
+                       "fallback build only))")
+    ctx.trusted.append("harness wrappers around real objects (transparent, they only record): recCache around the shared XdsCache "
+                       "(key sets given to Clear, ClearAll calls, Get hits/misses); in the race stress probeCache (timestamps of Clear/ClearAll) "
+                       "and probeGen around the CDS generator (the request it is given, comparison with an uncached twin); the harness's "
+                       "ambient index stub (model.NoopAmbientIndexes + a mutable set of HBONE-capable addresses)")
+    ctx.trusted.append("the FakeDiscoveryServer of /repo's own test support re-wired the way bootstrap wires istiod (one XdsCache shared by "
+                       "server, generators, SecretGen and EndpointIndex; bootstrap.InitGenerators; production SecretGen with the secret handler)")
     ctx.trusted.append("logical-to-wall-clock mapping of the harness (harness/c06/clock.go): only the order of tokens is observable by the cache")
     proved = ctx.lean_prove(THEOREMS)
     if not ctx.build_drv():
@@ -280,6 +345,10 @@ def run(ctx):
         unresolved = int(d.get("timing_unresolved", 0))
         ctx.count("cache.timing_unresolved_cases", unresolved)
         ctx.count("cache.timing_retries", int(d.get("timing_retries", 0)))
+        # what the generated ops did to the real cache (accepted / rejected writes by reason, evictions, PA => EDS ClearAll, crashes)
+        for k, v in sorted(d.items()):
+            if k not in ("timing_unresolved", "timing_retries"):
+                ctx.count("cache.effect." + k, int(v))
         if unresolved * 20 > max(1, ctx.streams.get("cache", {}).get("cases", 0)):
             ctx.tie_broken("cache-timing", "%d cases could not be mapped to the wall clock (machine too loaded); "
                            "the cache correspondence was not established for them" % unresolved)
@@ -312,9 +381,16 @@ def run(ctx):
                     ctx.count("keys.pairs_where_generation_differs.%s" % f[0], int(f[2]))
     # stream writers: the coherent-writer hypothesis validated on the real request / push / debug-dump code paths
     ctx.diff_stream("writers", ctx.n(50, 1000), oracle=oracle)
+    st = os.path.join(ctx.work, "writers.run.impl.stats")
+    if os.path.exists(st):
+        # per change target, and how many `check` reads were actually SERVED FROM THE CACHE (a check whose reads all miss is vacuous)
+        for l in ctx.read_lines(st):
+            f = l.split()
+            if len(f) == 2:
+                ctx.count("writers.effect." + f[0], int(f[1]))
     # ... and the exhaustive interleaving enumeration on the real cache
     il = os.path.join(ctx.work, "interleave.gen.ops")
-    rc, log = ctx.harness("gen", "interleave", ctx.seed, ctx.n(8, 40), il)
+    rc, log = ctx.harness("gen", "interleave", ctx.seed, ctx.n(10, 40), il)
     out = il + ".verdict"
     rc, log = ctx.harness("oracle", "interleave", il, out)
     if rc == 0 and os.path.exists(out):
@@ -333,6 +409,7 @@ def run(ctx):
         ctx.tie_broken("oracle-run:interleave", log)
     # goroutine races between the real writers and the real invalidation/publication (F8)
     race(ctx, ctx.n(5, 45))
+    assert_probe(ctx)
     if not proved and not ctx.violations:
         pass  # finish() reports the broken proof; the searches above found no failing input
 
@@ -379,24 +456,30 @@ MANIFEST = {
                    "Clear, ClearAll, Flush, evict queue, reverse index; XdsCacheImpl dispatch incl. PeerAuthentication => EDS ClearAll): "
                    "for every sequence of operations by any number of writers the reverse index is complete and leak-free, Clear is "
                    "effective, stale writers are rejected, no stored entry is older than the latest invalidation of one of its "
-                   "dependencies, and under the stated writer discipline (Coherent) and the key hypothesis KeyDetermines (equal keys + agreement on "
-                   "the entry's snapshot-dependent DependentConfigs => same generation) Get with the key computed on the current "
-                   "snapshot returns what a fresh generation returns for the asking proxy (never_stale, cache_invisible; stored entries "
-                   "are not claimed fresh, readers keying on an older snapshot are not covered); witnesses show both hypotheses are "
-                   "necessary. The model is tied to /repo on every run by a line-by-line differential on the real cache; the two "
-                   "hypotheses are validated (not proved) on the real key functions and the real cache writers."),
+                   "dependencies. Under two stated hypotheses - the writer/invalidator discipline Coherent (a writer's token is older than "
+                   "every invalidation of a dependency, and every ClearAll, that its snapshot does not reflect; Clear(cs) changes only cs; "
+                   "the global inputs G - MeshConfig, networks, ambient addresses, removal of an endpoint shard - change at ClearAll only) and "
+                   "the key hypothesis KeyDetermines (two snapshots that agree on G and on the entry's snapshot-dependent "
+                   "DependentConfigs, with equal keys, generate the same value) - Get with the key computed on the current snapshot returns "
+                   "what a fresh generation returns for the asking proxy, also across changes of G (never_stale, cache_invisible, "
+                   "global_input_witness; stored entries are not claimed fresh, readers keying on an older snapshot are not covered); witnesses "
+                   "show each hypothesis is necessary. The model is tied to /repo on every run by a line-by-line differential on the real "
+                   "cache; the two hypotheses are validated (not proved) on the real key functions, cache writers and invalidation paths."),
     "level_note": ("Trusted: Lean kernel + {propext, Classical.choice, Quot.sound}; the hand-written model (tied by differential testing "
                    "through model.XdsCache + the read-only hook pilot/pkg/model/zz_verif_c06.go); the harness's order-preserving mapping "
-                   "of logical times to the wall clock read by Clear. Validated only, not proved: KeyComplete for EndpointBuilder / "
+                   "of logical times to the wall clock read by Clear. Validated only, not proved: KeyDetermines for EndpointBuilder / "
                    "clusterCache / route Cache / SecretResource keys (stream keys: real CDS/EDS/RDS/SDS generators, warm shared cache vs "
-                   "from scratch, single-attribute proxy pairs on generated meshes) and writer coherence of processRequest / "
-                   "pushConnection / debug config dump (stream writers, sequential schedules only, entry points through "
-                   "pilot/pkg/xds/zz_verif_c06.go). Goroutine races between the real writers and initPushContext are only explored by a stress "
-                   "run with passive probes (statistical). Assumed: strictly increasing wall clock, ConfigKey hash injective. KeyDetermines (equal keys + agreement on DependentConfigs => same generation: key completeness and key versioning; "
-                   "stored entries are not claimed fresh) and in-sync invalidation are hypotheses validated by streams keys/writers only. Eight "
-                   "defects found by these streams were fixed in /repo (SDS key vs mesh-default private key provider; debug config "
-                   "dump pairing LastPushContext with time.Now(); F8: ProxyUpdate/AdsPushAll pairing the global context with a clock "
-                   "read unsynchronised with cache invalidation + publication; EDS key and RDS key without the proxy's IP family; RDS key without the catch-all cluster; CDS key without the credential-socket flags; RDS key without proxyHeaders)."),
+                   "from scratch, 44 proxy attributes singly, in combinations and in sequences, on generated meshes) and Coherent for "
+                   "initConnection / processRequest / processDeltaRequest / forceEDSPush / pushConnection[Delta] / both debug config dumps "
+                   "and for the invalidation paths incl. EDSUpdate, RemoveShard, Forced pushes and ConfigUpdate(Address) (stream writers, "
+                   "sequential schedules only, entry points through pilot/pkg/xds/zz_verif_c06.go). Goroutine races between the real writers "
+                   "and initPushContext are only explored by a stress run with passive probes (statistical). Not reached by any stream: the "
+                   "real ambient index's event path, mesh-networks changes, waypoint/ztunnel generators, delegate VirtualServices and service "
+                   "aliases, a Clear whose wall-clock token equals an earlier Add's Start. Assumed: strictly increasing wall clock, ConfigKey "
+                   "hash injective. Eight defects found by these streams were fixed in /repo (SDS key vs mesh-default private key "
+                   "provider; debug config dump pairing LastPushContext with time.Now(); F8: ProxyUpdate/AdsPushAll pairing the global "
+                   "context with a clock read unsynchronised with cache invalidation + publication; EDS key and RDS key without the proxy's "
+                   "IP family; RDS key without the catch-all cluster; CDS key without the credential-socket flags; RDS key without proxyHeaders)."),
     "technique": "Lean 4 theorems (induction over arbitrary op sequences) over an exact model of the cache state machine + differential correspondence with the real Go cache + property oracle with exhaustive small-interleaving enumeration + differential validation of the proof's hypotheses on the real generators",
     "design_ref": "DESIGN.md section 5 C06",
 }
